@@ -1126,6 +1126,12 @@ def parse_comptime(symbols: list[str], macros: dict = {}) -> list[str]:
 
     while index < len(symbols):
         symbol = symbols[index]
+        if symbol in ('"', "'", '#') and symbol in symbols[index+1:]:
+            # copy comments through untouched
+            end = symbols.index(symbol, index+1) + 1
+            new_symbols.extend(symbols[index:end])
+            index = end
+            continue
         if symbol == '!=':
             advance = define_macro(symbols[index:], macros=macros)
             index += advance
